@@ -198,37 +198,36 @@ func checkDistance(t *vlib.T, b *built) {
 }
 
 func pathSpaces(g *vlib.G) []graphSpace {
-	sp := []graphSpace{
+	return []graphSpace{
 		{n: 0}, {n: 1}, {n: 2}, {n: 3}, {n: 4},
 		{n: 2, weighted: true}, {n: 3, weighted: true}, {n: 4, weighted: true},
 		{n: 0, directed: true}, {n: 1, directed: true}, {n: 2, directed: true}, {n: 3, directed: true},
 		{n: 2, directed: true, weighted: true}, {n: 3, directed: true, weighted: true},
-		{n: 4, directed: true},
-		{n: 5},
-		{n: 5, weighted: true, rotate: true},
-		{n: 4, directed: true, weighted: true, stride: vlib.Pick(g, 2, 1), offset: vlib.Pick(g, 1, 0), rotate: true},
-	}
-	return sp
-}
-
-func genBetweenness(g *vlib.G) {
-	for _, s := range pathSpaces(g) {
-		forGraphs(s, s.stride <= 1 && !s.rotate, func(key string, mk func() *built) {
-			g.Case(key, func(t *vlib.T) { checkBetweenness(t, mk()) })
-		})
-		if g.Stopped() {
-			return
-		}
+		// zero-weight edges: zero-length shortest paths, ties, zero-weight cycles
+		{n: 2, weighted: true, alpha: alpha012}, {n: 3, weighted: true, alpha: alpha012},
+		{n: 4, weighted: true, alpha: alpha01, rotate: true},
+		{n: 2, directed: true, weighted: true, alpha: alpha012},
+		{n: 3, directed: true, weighted: true, alpha: alpha012, rotate: true},
+		{n: 4, directed: true, large: true},
+		{n: 5, large: true},
+		{n: 5, weighted: true, rotate: true, large: true},
+		{n: 4, directed: true, weighted: true, stride: vlib.Pick(g, 4, 1), offset: vlib.Pick(g, 1, 0), rotate: true, large: true},
+		{n: 4, weighted: true, alpha: alpha012, stride: vlib.Pick(g, 3, 1), rotate: true, large: true},
+		{n: 5, weighted: true, zeroOut: true, stride: vlib.Pick(g, 7, 1), offset: 3, rotate: true, large: true},
+		{n: 5, weighted: true, alpha: alpha01, stride: vlib.Pick(g, 7, 1), offset: 2, rotate: true, large: true},
+		{n: 4, directed: true, weighted: true, zeroOut: true, stride: vlib.Pick(g, 31, 3), offset: 5, large: true},
+		{n: 4, directed: true, weighted: true, alpha: alpha01, stride: vlib.Pick(g, 31, 3), offset: 6, large: true},
 	}
 }
 
-func genDistance(g *vlib.G) {
-	for _, s := range pathSpaces(g) {
-		forGraphs(s, s.stride <= 1 && !s.rotate, func(key string, mk func() *built) {
-			g.Case(key, func(t *vlib.T) { checkDistance(t, mk()) })
-		})
-		if g.Stopped() {
-			return
-		}
-	}
+func genBetweenness(g *vlib.G, large bool) {
+	eachSpace(g, large, pathSpaces(g), func(s graphSpace, key string, mk func() *built) {
+		g.Case(key, func(t *vlib.T) { checkBetweenness(t, mk()) })
+	})
+}
+
+func genDistance(g *vlib.G, large bool) {
+	eachSpace(g, large, pathSpaces(g), func(s graphSpace, key string, mk func() *built) {
+		g.Case(key, func(t *vlib.T) { checkDistance(t, mk()) })
+	})
 }
